@@ -1,12 +1,348 @@
 package engine
 
 import (
+	"sync"
+
 	"golang.org/x/tools/go/ssa"
 )
 
 // specAbort aborts a speculative (if-conversion) evaluation.
 type specAbort struct{ why string }
 
-func (ex *Exec) tryIfConvert(fr *frame, ins *ssa.If, c *Term) bool {
-	return false
+const (
+	ipNone = -2
+	ipExit = -1
+)
+
+type fnInfo struct {
+	ipdom []int // per block index: immediate post-dominator block index, ipExit or ipNone
+}
+
+var fnInfoCache sync.Map // *ssa.Function -> *fnInfo
+
+func getFnInfo(fn *ssa.Function) *fnInfo {
+	if v, ok := fnInfoCache.Load(fn); ok {
+		return v.(*fnInfo)
+	}
+	n := len(fn.Blocks)
+	// node n is the virtual exit
+	words := (n + 1 + 63) / 64
+	type bs []uint64
+	full := func() bs {
+		b := make(bs, words)
+		for i := 0; i <= n; i++ {
+			b[i/64] |= 1 << uint(i%64)
+		}
+		return b
+	}
+	pd := make([]bs, n+1)
+	for i := range pd {
+		pd[i] = full()
+	}
+	pd[n] = make(bs, words)
+	pd[n][n/64] |= 1 << uint(n%64)
+	succs := func(b *ssa.BasicBlock) []int {
+		if len(b.Succs) == 0 {
+			return []int{n} // return or panic
+		}
+		out := make([]int, len(b.Succs))
+		for i, s := range b.Succs {
+			out[i] = s.Index
+		}
+		return out
+	}
+	changed := true
+	for changed {
+		changed = false
+		for i := n - 1; i >= 0; i-- {
+			b := fn.Blocks[i]
+			nw := full()
+			for _, s := range succs(b) {
+				for k := range nw {
+					nw[k] &= pd[s][k]
+				}
+			}
+			nw[i/64] |= 1 << uint(i%64)
+			for k := range nw {
+				if nw[k] != pd[i][k] {
+					changed = true
+				}
+			}
+			pd[i] = nw
+		}
+	}
+	count := func(b bs) int {
+		c := 0
+		for _, w := range b {
+			for ; w != 0; w &= w - 1 {
+				c++
+			}
+		}
+		return c
+	}
+	info := &fnInfo{ipdom: make([]int, n)}
+	for i := 0; i < n; i++ {
+		info.ipdom[i] = ipNone
+		ci := count(pd[i])
+		if ci == n+1 && n > 0 {
+			// never converged (cannot reach exit): leave none
+			reach := false
+			for _, s := range succs(fn.Blocks[i]) {
+				if s == n {
+					reach = true
+				}
+			}
+			if !reach && ci == n+1 {
+				// may still be legitimate if function has exactly these post-dominators; fallthrough
+			}
+		}
+		for j := 0; j <= n; j++ {
+			if j == i || pd[i][j/64]&(1<<uint(j%64)) == 0 {
+				continue
+			}
+			if count(pd[j]) == ci-1 {
+				if j == n {
+					info.ipdom[i] = ipExit
+				} else {
+					info.ipdom[i] = j
+				}
+				break
+			}
+		}
+	}
+	fnInfoCache.Store(fn, info)
+	return info
+}
+
+type ifSite struct{ ok, fail int }
+
+type specEdge struct {
+	from *ssa.BasicBlock
+	cond *Term
+}
+
+const maxRegion = 40
+
+// collectRegion returns the blocks strictly between b and its post-dominator
+// j in topological order, or ok=false if the region is cyclic or too large.
+func collectRegion(b *ssa.BasicBlock, j int) (order []*ssa.BasicBlock, ok bool) {
+	state := map[*ssa.BasicBlock]int{} // 1 visiting, 2 done
+	ok = true
+	var visit func(x *ssa.BasicBlock)
+	visit = func(x *ssa.BasicBlock) {
+		if !ok {
+			return
+		}
+		if x.Index == j {
+			return
+		}
+		if x == b {
+			ok = false
+			return
+		}
+		switch state[x] {
+		case 1:
+			ok = false
+			return
+		case 2:
+			return
+		}
+		state[x] = 1
+		if len(state) > maxRegion {
+			ok = false
+			return
+		}
+		for _, s := range x.Succs {
+			visit(s)
+		}
+		state[x] = 2
+		order = append(order, x)
+	}
+	for _, s := range b.Succs {
+		visit(s)
+	}
+	if !ok {
+		return nil, false
+	}
+	for i, k := 0, len(order)-1; i < k; i, k = i+1, k-1 {
+		order[i], order[k] = order[k], order[i]
+	}
+	return order, true
+}
+
+// tryIfConvert evaluates the region between a symbolic If and its
+// post-dominator under guards and merges the results into ite terms.
+// Returns 0 (not converted), 1 (jumped to the join block) or 2 (function
+// result merged; caller must return).
+func (ex *Exec) tryIfConvert(fr *frame, ins *ssa.If, c *Term) int {
+	b := ins.Block()
+	st := ex.w.ifSites[ins]
+	if st != nil && st.fail >= 6 && st.ok == 0 {
+		return 0
+	}
+	if st == nil {
+		st = &ifSite{}
+		ex.w.ifSites[ins] = st
+	}
+	info := getFnInfo(fr.fn)
+	j := info.ipdom[b.Index]
+	if j == ipNone {
+		st.fail += 6
+		return 0
+	}
+	region, ok := collectRegion(b, j)
+	if !ok {
+		st.fail += 6
+		return 0
+	}
+	if ex.inSpec == 0 {
+		ex.specMark = ex.nobj
+	}
+	ex.inSpec++
+	res := 0
+	savedPos, savedFn := ex.curPos, ex.curFn
+	func() {
+		defer func() {
+			if e := recover(); e != nil {
+				if _, is := e.(specAbort); is {
+					res = 0
+					return
+				}
+				panic(e)
+			}
+		}()
+		res = ex.specRegion(fr, b, c, region, j)
+	}()
+	ex.inSpec--
+	ex.curPos, ex.curFn = savedPos, savedFn
+	if res == 0 {
+		ex.w.stats.IfConvAbort++
+		st.fail++
+	} else {
+		ex.w.stats.IfConv++
+		st.ok++
+	}
+	return res
+}
+
+func (ex *Exec) specRegion(fr *frame, b *ssa.BasicBlock, c *Term, region []*ssa.BasicBlock, j int) int {
+	tb := ex.tb
+	in := map[*ssa.BasicBlock][]specEdge{}
+	add := func(from, to *ssa.BasicBlock, cond *Term) {
+		if cond.IsConst() && cond.c == 0 {
+			return
+		}
+		in[to] = append(in[to], specEdge{from, cond})
+	}
+	add(b, b.Succs[0], c)
+	add(b, b.Succs[1], tb.Not(c))
+	type retEdge struct {
+		cond *Term
+		val  Value
+	}
+	var rets []retEdge
+	mergePhi := func(phi *ssa.Phi, edges []specEdge) Value {
+		var v Value
+		first := true
+		for k := len(edges) - 1; k >= 0; k-- {
+			e := edges[k]
+			var ev Value
+			found := false
+			for i, pred := range phi.Block().Preds {
+				if pred == e.from {
+					ev = ex.get(fr, phi.Edges[i])
+					found = true
+					break
+				}
+			}
+			if !found {
+				panic(specAbort{"phi edge"})
+			}
+			if first {
+				v, first = ev, false
+			} else {
+				v = ex.iteVal(e.cond, ev, v)
+			}
+		}
+		return v
+	}
+	for _, x := range region {
+		edges := in[x]
+		if len(edges) == 0 {
+			continue
+		}
+		guard := tb.False
+		for _, e := range edges {
+			guard = tb.Or(guard, e.cond)
+		}
+		for _, instr := range x.Instrs {
+			ex.steps++
+			switch instr := instr.(type) {
+			case *ssa.Phi:
+				fr.env[instr] = mergePhi(instr, edges)
+			case *ssa.If:
+				d := ex.get(fr, instr.Cond).(*Term)
+				add(x, x.Succs[0], tb.And(guard, d))
+				add(x, x.Succs[1], tb.And(guard, tb.Not(d)))
+			case *ssa.Jump:
+				add(x, x.Succs[0], guard)
+			case *ssa.Return:
+				if j != ipExit {
+					panic(specAbort{"return inside region"})
+				}
+				var rv Value
+				switch len(instr.Results) {
+				case 0:
+				case 1:
+					rv = ex.get(fr, instr.Results[0])
+				default:
+					t := make(Tuple, len(instr.Results))
+					for i, r := range instr.Results {
+						t[i] = ex.get(fr, r)
+					}
+					rv = t
+				}
+				rets = append(rets, retEdge{guard, rv})
+			case *ssa.Panic, *ssa.RunDefers, *ssa.Defer, *ssa.Go, *ssa.Send, *ssa.Select, *ssa.MapUpdate:
+				panic(specAbort{"impure instruction"})
+			default:
+				if ex.visit(fr, instr) != kNext {
+					panic(specAbort{"control"})
+				}
+			}
+		}
+	}
+	if j == ipExit {
+		if len(rets) == 0 {
+			panic(specAbort{"no return"})
+		}
+		v := rets[len(rets)-1].val
+		for k := len(rets) - 2; k >= 0; k-- {
+			v = ex.iteVal(rets[k].cond, rets[k].val, v)
+		}
+		fr.result = v
+		return 2
+	}
+	J := fr.fn.Blocks[j]
+	edges := in[J]
+	if len(edges) == 0 {
+		panic(specAbort{"join unreachable"})
+	}
+	// all phis are evaluated against the pre-join environment
+	var phis []*ssa.Phi
+	var vals []Value
+	for _, instr := range J.Instrs {
+		phi, ok := instr.(*ssa.Phi)
+		if !ok {
+			break
+		}
+		phis = append(phis, phi)
+		vals = append(vals, mergePhi(phi, edges))
+	}
+	for i, phi := range phis {
+		fr.env[phi] = vals[i]
+	}
+	fr.prev, fr.block = nil, J
+	fr.skipPhis = true
+	return 1
 }
